@@ -620,7 +620,7 @@ class MomentumEquation(Equation):
         tmpmui = dot(uijhat, XIJ, d) / (tmpxij/hi + EPS * hi)
         mui = min(0, tmpmui)
 
-        tmpmuj = dot(uijhat, XIJ, d) / (tmpxij/hi + EPS * hj)
+        tmpmuj = dot(uijhat, XIJ, d) / (tmpxij/hj + EPS * hj)
         muj = min(0, tmpmuj)
 
         Qi = rhoi * (-Cl*ci*mui + Cq*mui*mui)
@@ -747,7 +747,7 @@ class EnergyEquation(Equation):
         tmpmui = dot(uijhat, XIJ, d) / (tmpxij/hi + EPS * hi)
         mui = min(0, tmpmui)
 
-        tmpmuj = dot(uijhat, XIJ, d) / (tmpxij/hi + EPS * hj)
+        tmpmuj = dot(uijhat, XIJ, d) / (tmpxij/hj + EPS * hj)
         muj = min(0, tmpmuj)
 
         Qi = rhoi * (-Cl*ci*mui + Cq*mui*mui)
